@@ -5,6 +5,8 @@ package main
 import (
 	"errors"
 	"fmt"
+	"sync"
+	"sync/atomic"
 	"time"
 
 	vk "github.com/sheerbytes/sheerbytes/internal/verifkit"
@@ -89,10 +91,19 @@ type c12StallObs struct {
 	Problem   string `json:"problem,omitempty"`
 	Inconcl   string `json:"inconclusive,omitempty"`
 	SlotOfNew bool   `json:"new_transfer_still_has_slot"`
+	// the scenario could not be built: a delivery waited for the progress mutex the harness held
+	NotConstructible bool   `json:"not_constructible,omitempty"`
+	Stuck            string `json:"sender_stopped_handling_events,omitempty"`
+	StuckDump        string `json:"goroutines_inside_the_sender,omitempty"`
+	Skipped          bool   `json:"-"`
 }
 
 func (x *c12Explorer) stalledReturn(w *c12Worker, variant string) c12StallObs {
 	out := c12StallObs{Variant: variant, Max: 1}
+	if c12Abandoned() {
+		out.Skipped = true
+		return out
+	}
 	t0 := time.Now()
 	lap := func(what string) {
 		if d := time.Since(t0); d > 2*time.Second {
@@ -101,10 +112,23 @@ func (x *c12Explorer) stalledReturn(w *c12Worker, variant string) c12StallObs {
 	}
 	in := c12NewInst(w.conn, 1)
 	defer in.teardown()
+	// stuck: the watched-delivery rule (c12_watch.go) has a verdict for this sender
+	stuck := func() bool {
+		if what := in.stuckWhat(); what != "" {
+			out.Stuck = what
+			in.wmu.Lock()
+			out.StuckDump = in.stuckDump
+			in.wmu.Unlock()
+			return true
+		}
+		return false
+	}
 	step := func(e c12Ev) bool {
 		in.do(e)
 		if q := in.quiesce(); q != "" {
-			out.Inconcl = q
+			if !stuck() {
+				out.Inconcl = q
+			}
 			return false
 		}
 		return true
@@ -119,13 +143,23 @@ func (x *c12Explorer) stalledReturn(w *c12Worker, variant string) c12StallObs {
 		return out
 	}
 	lap("first transfer running")
-	release := in.vs.HoldProgress()
+	releaseRaw := in.vs.HoldProgress()
+	var relOnce sync.Once
+	release := func() { relOnce.Do(releaseRaw) }
+	in.wmu.Lock()
+	in.holdRelease = release // a delivery that waits for this mutex gets it after a grace period (c12_watch.go)
+	in.wmu.Unlock()
 	released := false
 	defer func() {
 		if !released {
 			release()
 		}
 	}()
+	blocked := func() bool {
+		in.wmu.Lock()
+		defer in.wmu.Unlock()
+		return in.heldBlocked
+	}
 	in.tell(inv, errors.New("stub transfer failed"))
 	// wait until runTransfer has gone through its first critical section (status FAILED) and is parked in setSenderStage
 	okParked := false
@@ -134,11 +168,24 @@ func (x *c12Explorer) stalledReturn(w *c12Worker, variant string) c12StallObs {
 		in.mu.Lock()
 		ret := in.returned >= in.told
 		in.mu.Unlock()
-		if ret && in.vs.Snapshot().Status[in.full(a)] == "FAILED" {
-			okParked = true
-			break
+		if ret {
+			snap, ok := in.snapshot()
+			if !ok {
+				break
+			}
+			if snap.Status[in.full(a)] == "FAILED" {
+				okParked = true
+				break
+			}
 		}
 		time.Sleep(200 * time.Microsecond)
+	}
+	if stuck() {
+		return out
+	}
+	if blocked() {
+		out.NotConstructible = true
+		return out
 	}
 	if !okParked {
 		out.Inconcl = "the failing transfer never returned into runTransfer"
@@ -152,6 +199,14 @@ func (x *c12Explorer) stalledReturn(w *c12Worker, variant string) c12StallObs {
 	if variant == "b-accepts-while-parked" {
 		in.do(c12Ev{K: c12Join, P: b})
 		in.do(c12Ev{K: c12Accept, P: b})
+	}
+	if stuck() {
+		return out
+	}
+	if blocked() {
+		// the event handlers of this tree take the progress mutex: the window cannot be held open
+		out.NotConstructible = true
+		return out
 	}
 	// the second transfer of a must be running now
 	if !in.wait(func() bool {
@@ -169,8 +224,13 @@ func (x *c12Explorer) stalledReturn(w *c12Worker, variant string) c12StallObs {
 	lap("second transfer running")
 	release()
 	released = true
+	in.wmu.Lock()
+	in.holdRelease = nil
+	in.wmu.Unlock()
 	if q := in.quiesce(); q != "" {
-		out.Inconcl = q
+		if !stuck() {
+			out.Inconcl = q
+		}
 		return out
 	}
 	if variant != "b-accepts-while-parked" {
@@ -180,6 +240,9 @@ func (x *c12Explorer) stalledReturn(w *c12Worker, variant string) c12StallObs {
 	}
 	lap("final quiescence")
 	o := in.observe(0)
+	if stuck() {
+		return out
+	}
 	out.Live, out.Queue, out.Active, out.Status = o.Live, o.Queue, o.Active, o.Status
 	for _, s := range o.Active {
 		if s == "a" {
@@ -210,7 +273,21 @@ func (x *c12Explorer) directedStalledReturns(n int) (runs int, samples []c12Stal
 		})
 	})
 	for i, o := range outs {
+		if o.Skipped {
+			atomic.AddInt64(&c12SkippedAfterStuck, 1)
+			continue
+		}
 		x.e.R.Eval()
+		if o.Stuck != "" {
+			x.e.R.Violate("history:stalled-failing-return:sender-stops-handling-events:"+o.Stuck,
+				"a failing transfer's bookkeeping was parked between its two critical sections while its receiver left, re-joined and re-accepted; the sender then stopped handling events ("+o.Stuck+" never returned although a fresh sender handled the same kinds of events promptly)",
+				map[string]any{"variant": o.Variant, "events": "Ja Aa [F parked] La Ja Aa [release] Jb Ab", "max": 1}, o)
+			continue
+		}
+		if o.NotConstructible {
+			x.e.R.Count("directed_stalled_return_not_constructible")
+			continue
+		}
 		if o.Inconcl != "" {
 			x.e.R.Inconcl("stalled-return scenario: " + o.Inconcl)
 			continue
